@@ -750,6 +750,14 @@ where
                     let id = if a[3] % 2 == 0 { self.fresh_id() } else { self.kid(a[2].wrapping_add(r)) };
                     let g = self.gen();
                     let s = &mut self.slots[self.cur];
+                    // "slots freed by removals are ... reclaimed in place instead of driving growth": an insert
+                    // that finds the table at most half full of live elements must not enlarge it
+                    let grow_probe = if self.c13 {
+                        let d = Self::dump_of(&s.map);
+                        (!d.is_singleton).then(|| (d.buckets(), d.items, s.map.allocation_size()))
+                    } else {
+                        None
+                    };
                     if r % 2 == 0 {
                         let old = s.map.insert(K::new(id, g), V::new(id as u64));
                         let want = Self::model_insert(&mut s.model, id, g, id as u64);
@@ -762,6 +770,13 @@ where
                         r.check("entry or_insert");
                         if !present {
                             s.model.push(ME { id, gen: g, val: id as u64 });
+                        }
+                    }
+                    if let Some((buckets, items, size)) = grow_probe {
+                        let full = if buckets < 8 { buckets - 1 } else { buckets / 8 * 7 };
+                        let now = self.slots[self.cur].map.allocation_size();
+                        if items + 1 <= full / 2 && now > size {
+                            bad!("C13", "growth-driven-by-freed-slots", "insert into a table of {buckets} buckets holding {items} live elements (load limit {full}) enlarged the allocation {size} -> {now}");
                         }
                     }
                     self.basic_ops += 1;
